@@ -82,6 +82,12 @@ def run_history(mod, script, text, cmds, free, tagline, st, viol, ctx, budget=40
         fin0 = s.finished
         s0 = stmt_key(s.cur_stmt())
         d0 = s.frame_depth()
+        try:
+            ins0 = s.cpu.get_instruction_at(s.cpu.pc)[0]
+            if ins0 is not None and ins0.op == 'frame':
+                d0 += 1     # stopped on a routine's frame instruction: we are already in that routine
+        except Exception:
+            pass
         h0 = len(s.impl.h)
         pr0 = sum(1 for e in s.impl.h if e[0] == 'print')
         pc0 = s.cpu.pc
@@ -237,7 +243,8 @@ def pc_trace(mod, script):
         while not cpu.halted and cpu.pc < len(mod.code) and n < 40000:
             cpu.tick()
             n += 1
-            pcs.append(cpu.pc)
+            if not cpu.halted:
+                pcs.append(cpu.pc)      # where a halted machine's pc points is not a place control reached
     return pcs, cpu.halted
 
 
